@@ -5,6 +5,7 @@ package main
 
 import (
 	"fmt"
+	"os"
 	"sort"
 	"strings"
 
@@ -49,6 +50,7 @@ type conv struct {
 	calls int
 	// failAt >= 0: the call with that index fails with an ordinary error
 	failAt int
+	fired  bool // the injected failure actually happened
 }
 
 type missingErr struct{ v string }
@@ -87,6 +89,7 @@ func (cv *conv) Convert(object *typed.TypedValue, version fieldpath.APIVersion) 
 	idx := cv.calls
 	cv.calls++
 	if cv.failAt >= 0 && idx == cv.failAt {
+		cv.fired = true
 		return nil, fmt.Errorf("injected conversion failure at call %d", idx)
 	}
 	if cv.c.missing[string(version)] {
@@ -121,7 +124,9 @@ func (cv *conv) Convert(object *typed.TypedValue, version fieldpath.APIVersion) 
 		}
 		return base
 	})
-	return typed.AsTyped(value.NewValueInterface(u), &to.sd.parser.Schema, to.tr, typed.AllowDuplicates)
+	// a renaming converter is total: it must not reject the intermediate objects the
+	// updater hands it (pruning can leave a list item without content)
+	return typed.AsTypedUnvalidated(value.NewValueInterface(u), &to.sd.parser.Schema, to.tr), nil
 }
 
 func (cv *conv) IsMissingVersionError(err error) bool {
@@ -232,10 +237,29 @@ func sexpConf(c *histConf) string {
 
 // ---- state ----
 
+type appliedCfg struct {
+	ver string
+	v   interface{}
+}
+
 type hstate struct {
 	live    *typed.TypedValue
 	liveVer string
 	managed fieldpath.ManagedFields
+	// the last configuration each manager applied successfully (history knowledge that the
+	// records alone do not carry: an Update rewrites the record as "not applied")
+	applied map[string]appliedCfg
+}
+
+func (st *hstate) withApplied(mgr, ver string, v interface{}) map[string]appliedCfg {
+	out := map[string]appliedCfg{}
+	for k, x := range st.applied {
+		out[k] = x
+	}
+	if mgr != "" {
+		out[mgr] = appliedCfg{ver, v}
+	}
+	return out
 }
 
 func sexpManaged(m fieldpath.ManagedFields) string {
@@ -287,6 +311,7 @@ type opResult struct {
 	err     error
 	panicked bool
 	calls   int
+	fired   bool
 }
 
 func (r opResult) ok() bool { return r.err == nil && !r.panicked }
@@ -298,6 +323,9 @@ func sexpOutcome(ver string, r opResult) string {
 	if r.err != nil {
 		if cs, ok := r.err.(merge.Conflicts); ok {
 			return sexpConflicts(cs)
+		}
+		if os.Getenv("VERIF_DEBUG") != "" {
+			fmt.Fprintln(os.Stderr, "error:", r.err)
 		}
 		return "err"
 	}
